@@ -112,3 +112,185 @@ def _short(v, n=400):
 
 def dc(x):
     return copy.deepcopy(x)
+
+
+# --------------------------------------------------------------------------
+# content-preserving history detours for the "functional" properties (C08-C20):
+# the object under test should not only ever be a freshly constructed one.
+
+def fresh_label(nodes):
+    """A label of the same kind as the existing ones that is not a node."""
+    nodes = list(nodes)
+    if not nodes:
+        return None
+    if all(isinstance(n, str) for n in nodes):
+        z = "zz"
+        while z in nodes:
+            z += "z"
+        return z
+    try:
+        if all(int(n) == n for n in nodes):
+            return int(max(nodes)) + 1
+    except (TypeError, ValueError):
+        pass
+    return None
+
+
+def scramble(h, codes, trace=None):
+    """Apply content-preserving detours (drawn small ints) to a container and return the
+    object to use from now on (a copy when a copy detour was drawn).
+
+      0  insert an extra hyperedge on existing nodes and remove it again (internal ids get gaps)
+      1  insert a new node Z with a hyperedge containing it, then remove_node(Z)
+      2  continue on h.copy()
+      3  (unweighted Hypergraph only) insert e + {Z} next to an existing e, then
+         remove_node(Z, keep_edges=True): the shrunk hyperedge merges into e
+      4  remove an existing hyperedge and insert it again with its weight and metadata
+         (its internal id moves to the end, leaving a gap in the middle)
+    Nodes, hyperedges, weights and metadata are the same before and after.
+    """
+    kind = type(h).__name__
+    for code in codes or []:
+        nodes = list(h.get_nodes())
+        if not nodes:
+            return h
+        z = fresh_label(nodes)
+        edges = list(h.get_edges())
+        a = sorted(nodes, key=repr)[0]
+        code = code % 5
+        step = None
+        if code == 2 and hasattr(h, "copy"):
+            h = h.copy()
+            step = "copy()"
+        elif code == 4 and edges:
+            e = edges[0]
+            try:
+                if kind == "Hypergraph":
+                    w, m = h.get_weight(e), h.get_edge_metadata(e)
+                    h.remove_edge(e)
+                    h.add_edge(e, **(dict(weight=w) if h.is_weighted() else {}), metadata=m)
+                elif kind == "DirectedHypergraph":
+                    w, m = h.get_weight(e), h.get_edge_metadata(e)
+                    h.remove_edge(e)
+                    h.add_edge(e, **(dict(weight=w) if h.is_weighted() else {}), metadata=m)
+                elif kind == "TemporalHypergraph":
+                    t, ns = e
+                    w, m = h.get_weight(ns, t), h.get_edge_metadata(ns, t)
+                    h.remove_edge(ns, t)
+                    h.add_edge(ns, t, **(dict(weight=w) if h.is_weighted() else {}), metadata=m)
+                elif kind == "MultiplexHypergraph":
+                    ns, layer = e
+                    w, m = h.get_weight(ns, layer), h.get_edge_metadata(ns, layer)
+                    h.remove_edge((ns, layer))
+                    h.add_edge(ns, layer, **(dict(weight=w) if h.is_weighted() else {}),
+                               metadata=m)
+                step = "remove_edge(%r) and insert it again" % (e,)
+            except Violation:
+                raise
+        elif kind == "Hypergraph":
+            if code == 0 and len(nodes) >= 2:
+                cand = tuple(sorted(nodes, key=repr)[:2]) if len(nodes) == 2 else None
+                import itertools
+                for r in (2, 3, 1):
+                    for c in itertools.combinations(sorted(nodes, key=repr), r):
+                        if not h.check_edge(c):
+                            cand = c
+                            break
+                    else:
+                        continue
+                    break
+                if cand is not None and not h.check_edge(cand):
+                    h.add_edge(cand)
+                    h.remove_edge(tuple(reversed(cand)))
+                    step = "add_edge+remove_edge(%r)" % (cand,)
+            elif code == 1 and z is not None:
+                h.add_edge((a, z))
+                h.remove_node(z)
+                step = "add_edge((%r, %r)); remove_node(%r)" % (a, z, z)
+            elif (code == 3 and z is not None and edges and not h.is_weighted()
+                  and h.get_edge_metadata(tuple(edges[0])) == {}):
+                e = tuple(edges[0])
+                h.add_edge(e + (z,))
+                h.remove_node(z, keep_edges=True)
+                step = "add_edge(%r); remove_node(%r, keep_edges=True)" % (e + (z,), z)
+        elif kind == "DirectedHypergraph":
+            if code in (0, 3) and len(nodes) >= 2:
+                b = sorted(nodes, key=repr)[1]
+                for cand in (((a,), (b,)), ((b,), (a,))):
+                    if not h.check_edge(cand):
+                        h.add_edge(cand)
+                        h.remove_edge(cand)
+                        step = "add_edge+remove_edge(%r)" % (cand,)
+                        break
+            elif code == 1 and z is not None:
+                h.add_edge(((z,), (a,)))
+                h.remove_node(z)
+                step = "add_edge(((%r,), (%r,))); remove_node(%r)" % (z, a, z)
+        elif kind == "TemporalHypergraph":
+            t = 0
+            if code in (0, 3) and len(nodes) >= 1:
+                cand = tuple(sorted(nodes, key=repr)[:2])
+                if not h.check_edge(cand, t):
+                    h.add_edge(cand, t)
+                    h.remove_edge(cand, t)
+                    step = "add_edge+remove_edge(%r, %r)" % (cand, t)
+            elif code == 1 and z is not None:
+                h.add_edge((a, z), t)
+                h.remove_node(z)
+                step = "add_edge((%r, %r), %r); remove_node(%r)" % (a, z, t, z)
+        elif kind == "MultiplexHypergraph":
+            layers = sorted(h.get_existing_layers(), key=repr)
+            if layers and code in (0, 3):
+                cand = tuple(sorted(nodes, key=repr)[:2])
+                present = {(tuple(sorted(e)), l) for e, l in h.get_edges()}
+                if (tuple(sorted(cand)), layers[0]) not in present:
+                    h.add_edge(cand, layers[0])
+                    h.remove_edge((cand, layers[0]))
+                    step = "add_edge+remove_edge((%r, %r))" % (cand, layers[0])
+            elif layers and code == 1 and z is not None:
+                h.add_edge((a, z), layers[0])
+                h.remove_node(z)
+                step = "add_edge((%r, %r), %r); remove_node(%r)" % (a, z, layers[0], z)
+        if step is not None and trace is not None:
+            trace.append("detour: " + step)
+    return h
+
+
+CONTAINERS = ("Hypergraph", "DirectedHypergraph", "TemporalHypergraph", "MultiplexHypergraph")
+
+
+def history_codes(*parts):
+    """Detour codes derived from the case itself (pure function of the case, so replayable):
+    half of the cases keep the freshly built object, the others get 1-3 detours."""
+    import hashlib
+    import json
+    d = hashlib.sha1(json.dumps(parts, sort_keys=True, default=repr).encode()).hexdigest()
+    if int(d[0], 16) < 8:
+        return []
+    n = 1 + int(d[1], 16) % 3
+    return [int(c, 16) % 5 for c in d[2:2 + n]]
+
+
+def with_history(build_fn):
+    """Decorator for a module's builder: the (first) container it returns is taken through
+    content-preserving detours chosen by history_codes(arguments)."""
+    import functools
+
+    @functools.wraps(build_fn)
+    def wrapper(*args, **kw):
+        out = build_fn(*args, **kw)
+        codes = history_codes([a for a in args if isinstance(a, (dict, list, tuple, str, int))],
+                              sorted(kw.items(), key=repr))
+        if not codes:
+            return out
+        if type(out).__name__ in CONTAINERS:
+            return scramble(out, codes)
+        if isinstance(out, tuple):
+            lst = list(out)
+            for i, x in enumerate(lst):
+                if type(x).__name__ in CONTAINERS:
+                    lst[i] = scramble(x, codes)
+                    break
+            return tuple(lst)
+        return out
+    return wrapper
